@@ -3,9 +3,31 @@ virtual time.  Written from the nRF24L01+ product specification v1.0, not from t
 
 Nothing in here imports the library under test.
 """
+import copy
+import ctypes
 import heapq
 import _thread
 import threading
+
+
+def _deepcopy_memoryview(x, memo):
+    """copy.deepcopy cannot copy a memoryview; a changed library may keep one in its state (a view into a buffer it
+    pre-allocated).  The copy is a view of the same bytes of the *copied* underlying object, so aliasing inside one copied
+    state is preserved exactly as for any other shared object (memo).  The unchanged library holds no memoryviews."""
+    base = x.obj
+    try:
+        if isinstance(base, bytearray) and x.contiguous and x.itemsize == 1 and x.ndim == 1:
+            nb = copy.deepcopy(base, memo)
+            if not len(x):
+                return memoryview(nb)[0:0]
+            off = ctypes.addressof(ctypes.c_char.from_buffer(x)) - ctypes.addressof(ctypes.c_char.from_buffer(base))
+            return memoryview(nb)[off:off + len(x)]
+    except (TypeError, ValueError):
+        pass
+    return memoryview(bytearray(x) if not x.readonly else bytes(x))
+
+
+copy._deepcopy_dispatch[memoryview] = _deepcopy_memoryview
 
 US = 1000  # ns per microsecond
 MS = 1000000
